@@ -41,6 +41,13 @@ func TaskExecutor.ExecuteAt
   ghost before call Executor.ExecuteAt: assert queuedElementExists ==> !sel(live, queuedElement)
   ghost after call Executor.ExecuteAt: live = upd(live, result, result != nil)
   ghost after call Executor.ExecuteAt: idOf = upd(idOf, result, identifier)
+  -- the wrapper recognises its own task by the variable it captured: that variable holds the scheduled element (the one
+  -- that is registered and returned) when ExecuteAt returns - otherwise the finished task's entry is never removed and
+  -- Cancel(id) reports true for a task that has already run
+  ghost local newtask Int
+  ghost after call Executor.ExecuteAt: newtask = result
+  ghost at return: assert scheduledTask == newtask && r0 == newtask
+  ghost before call ShrinkingMap.Set: assert arg1 == identifier && arg2 == newtask && newtask != nil
   ensures unlocked(t.queuedElementsMutex)
 
 func TaskExecutor.Cancel
